@@ -526,6 +526,15 @@ theorem timedelta_pformat_reads_back (st : Settings) (hz : st.ctx.depthZero = fa
   obtain ⟨c', hlay⟩ := C04.sound_pformat st (.timedelta d s u)
   exact timedelta_reads_back st hz hz' d s u hlay
 
+/-- faithful: two timedeltas whose documents have the same code tokens are the same duration -/
+theorem timedelta_tokens_injective (ctx : Ctx) (hz : ctx.depthZero = false) (hz' : ctx.nested.depthZero = false)
+    (d s u d' s' u' : Int) (h : toksOf (timedeltaDoc ctx d s u) = toksOf (timedeltaDoc ctx d' s' u')) :
+    d * 86400000000 + s * 1000000 + u = d' * 86400000000 + s' * 1000000 + u' := by
+  have h1 := timedelta_tokens ctx hz hz' d s u
+  have h2 := timedelta_tokens ctx hz hz' d' s' u'
+  rw [h, h2] at h1
+  exact (Option.some.inj h1).symm
+
 /-! non-vacuity: the default settings, `depth = 2` and `depth = 5` meet the hypotheses (`depth = 1` does not: the arguments are then
 printed as `int(...)`, which is C11's business) -/
 example : ({} : Settings).ctx.depthZero = false ∧ ({} : Settings).ctx.nested.depthZero = false := by decide
